@@ -1,12 +1,21 @@
 use crate::{Cfg, Pr, Symbol, SymbolAttribute, generate_name};
 
+/// Checks whether the non-terminal `n` occurs on the right-hand side of any production.
+fn is_used_on_rhs(cfg: &Cfg, n: &str) -> bool {
+    cfg.pr.iter().any(|p| {
+        p.get_r()
+            .iter()
+            .any(|s| matches!(s, Symbol::N(m, ..) if m == n))
+    })
+}
+
 /// Augment the grammar with a new start symbol if the current start symbol has more than one
-/// production.
+/// production or is used on the right-hand side of a production.
 /// The new start symbol is created by adding a new production to the grammar at the beginning.
 /// This is necessary for LR parsing to have a single start production with implicit EOF at the end.
 pub fn augment_grammar(cfg: &Cfg) -> Cfg {
     let start_symbol_production_count = cfg.matching_productions(&cfg.st).len();
-    if start_symbol_production_count == 1 {
+    if start_symbol_production_count == 1 && !is_used_on_rhs(cfg, &cfg.st) {
         return cfg.clone();
     }
     let mut new_cfg = cfg.clone();
